@@ -330,7 +330,20 @@ fn case(m: &mut Mon, r: &mut Rng, _idx: u64) {
             // formatter layout
             let si = r.usize(SPECS.len());
             let s = SPECS[si];
+            // every 8th value is long (up to 150 limbs, thorough 700: all three printers — one word, <= 16 words,
+            // recursive above — and several levels of the recursive one) and then usually gets a width just above
+            // its own length, so that the padding arithmetic of the long printers is exercised too
+            let big = r.chance(1, 8);
             let x = match r.below(4) {
+                _ if big => {
+                    let n = match r.below(4) {
+                        0 => 3 + r.usize(16),
+                        1 => 60 + r.usize(12),
+                        2 => 120 + r.usize(20),
+                        _ => 3 + r.usize(if m.thorough() { 700 } else { 150 }),
+                    };
+                    nat(&gen::shape(r, n))
+                }
                 0 => BigUint::zero(),
                 1 => BigUint::from(r.word()),
                 _ => nat(&gen::small_mag(r)),
@@ -338,13 +351,14 @@ fn case(m: &mut Mon, r: &mut Rng, _idx: u64) {
             let neg = r.bool() && !x.is_zero();
             let xl = limbs_of_nat(&x);
             let (u, i) = (ubig(&xl), ibig(neg, &xl));
+            let rd = spec_radix(&s);
+            let digits = x.to_str_radix(rd);
             let w = match r.below(5) {
+                _ if big && r.chance(3, 4) => digits.len() + r.usize(60),
                 0 => 0,
                 1 => r.usize(6),
                 _ => r.usize(81),
             };
-            let rd = spec_radix(&s);
-            let digits = x.to_str_radix(rd);
             let d = || format!("layout spec={:?} width={} x={}{}", s.text, w, if neg { "-" } else { "" }, gen::hex(&xl));
             let h = gen::hash_limbs((si as u64) << 8 | w as u64, &xl) ^ neg as u64;
             m.check("layout", &format!("{}", s.text), Some(h), &d, || {
@@ -510,7 +524,7 @@ fn main() {
         prop: "C07",
         quick_cases: 400_000,
         thorough_cases: 12_000_000,
-        rule: "All radices 2..=36; values radix^k, radix^k +- 1, lengths around the 16-word (printer) and 256-word (parser) chunk boundaries, random up to 600 (thorough 3000) limbs; sentences of the strict grammar (sign, 0b/0o/0x prefix, underscores between digits, mixed case, leading zeros) must parse to the model value, mutated sentences (digit >= radix, interior sign, whitespace, non-ASCII, empty) must be rejected, arbitrary strings must not panic; 180 literal format specs x run-time widths 0..80 compared with a pad_integral reference (itself checked against format! on u128/i128 at start-up); bytes at +-2^(8k), +-2^(8k-1), +-1 around them; chunk sizes 1..300 bits. distinct = (op, value/text hash).",
+        rule: "All radices 2..=36; values radix^k, radix^k +- 1, lengths around the 16-word (printer) and 256-word (parser) chunk boundaries, random up to 600 (thorough 3000) limbs; sentences of the strict grammar (sign, 0b/0o/0x prefix, underscores between digits, mixed case, leading zeros) must parse to the model value, mutated sentences (digit >= radix, interior sign, whitespace, non-ASCII, empty) must be rejected, arbitrary strings must not panic; 180 literal format specs x run-time widths 0..80 (every 8th value up to 150 / 700 limbs with a width just above its own length) compared with a pad_integral reference (itself checked against format! on u128/i128 at start-up); bytes at +-2^(8k), +-2^(8k-1), +-1 around them; chunk sizes 1..300 bits. distinct = (op, value/text hash).",
         assumptions: &["num-bigint to_str_radix/parse_bytes/from_signed_bytes_le are correct", "underscore-only or doubled/edge underscores are outside the strict grammar and only checked for no-panic and digit-consistent values"],
         required: &[("print_parse", false), ("reject", false), ("layout", false), ("bytes", false), ("chunks", false), ("arbitrary", false)],
         case,
